@@ -21,6 +21,24 @@ CHECKS = {
              "flat-map-to-tree glue exercised not modelled. One recorded finding (multi-start when the first group is parallel).",
         technique="Lean 4 proof (structural/mutual induction, List.Perm) + differential correspondence + rule oracle",
     ),
+    "C09": dict(
+        category="proof",
+        text="Lean theorems: Shape.cmp is a lawful total order, so sorting child shapes is canonical (permuted lists sort to "
+             "the same list); the canonical shape of two call trees is equal iff the trees are isomorphic up to sibling "
+             "order (canon_iso; ids, times, names do not occur in a tree); the model digest of a stored trace is that "
+             "canonical shape and does not depend on the storage/fetch order of the spans (shapeOf_perm: ingestion order, "
+             "batch boundaries); the classes returned partition the hashed traces exactly by (workflow name, shape): "
+             "cover, exact membership, no two classes with one key; the rows computed are one per in-window root. The "
+             "model is compared with find_unique_graphs on classes (one representative per class, none outside) over a "
+             "store holding every labelled ordered tree <= 4 nodes (thorough 5) and seeded multisets with renumbered "
+             "twins x batch sizes x orders x windows, directly and through the cleaning pipeline of otel_to_pv.",
+        ref="DESIGN.md §5 C09",
+        note="Trusted: Lean kernel; axioms propext, Quot.sound, Classical.choice. Assumed, not proved: xxh64 of type + "
+             "sorted child digests is collision-free and uniquely decodable on the strings that occur (the model's "
+             "digest is the canonical shape). SQLite's choice of the member under GROUP BY is left free.",
+        technique="Lean 4 proof (lawful order on rose trees, canonical sort, mutual induction) + differential correspondence "
+                  "on classes + independent canonical-form oracle",
+    ),
     "C10": dict(
         category="proof",
         text="Lean theorem ingest_spec: for every store with the invariant (unique ids, unique links, no orphan links), "
